@@ -232,7 +232,7 @@ func Build(p Plan) *Built {
 	if p.OldBelow > 0 {
 		// Blocks up to height OldBelow are more than 24 h old, the tip is recent.
 		spacing = int64(25*time.Hour/time.Second)/int64(p.ChainLen-int(p.OldBelow)) + 1
-		span = time.Duration(int64(p.ChainLen+12)*spacing) * time.Second
+		span = time.Duration(int64(p.ChainLen+40)*spacing) * time.Second // room for ~40 more blocks before "too far in the future"
 	}
 	w := NewWorld(Config{Seed: p.Seed, Preset: p.Preset, Interval: p.Interval, SpacingSec: spacing, GenesisAgo: span})
 	g := w.G
